@@ -42,6 +42,24 @@ func genBarrierChart(rng *rand.Rand) *bchart {
 	bc := &bchart{Files: gen.Files{"Chart.yaml": "apiVersion: v2\nname: bar\nversion: 0.1.0\n", "values.yaml": "k: v\n"}}
 	nk := 3 + rng.Intn(4)
 	perm := rng.Perm(len(barrierKinds))[:nk]
+	if rng.Intn(3) == 0 { // both custom kinds: consecutive batches of different unknown kinds
+		perm = append(perm[:nk-2:nk-2], len(barrierKinds)-2, len(barrierKinds)-1)
+		for i, p := range perm[:nk-2] {
+			if p >= len(barrierKinds)-2 {
+				perm[i] = i // a built-in kind instead (indexes 0..3 are built-in)
+			}
+		}
+		seen := map[int]bool{}
+		uniq := perm[:0]
+		for _, p := range perm {
+			if !seen[p] {
+				seen[p] = true
+				uniq = append(uniq, p)
+			}
+		}
+		perm = uniq
+		nk = len(perm)
+	}
 	var docs []string
 	for _, ki := range perm {
 		k := barrierKinds[ki]
@@ -207,6 +225,47 @@ func installOne(res *core.Result, mu *sync.Mutex, seed int64, idx int, verbose b
 			}
 		}
 	}
+	// two different unknown kinds: helm may choose the order, but one kind must be complete before
+	// the first create of the other is received (interval overlap of single requests is almost
+	// never visible because the delay is slept before recv, so the groups are compared)
+	type grp struct{ minRecv, maxDone int64 }
+	groups := map[string]*grp{}
+	for _, r := range bc.Res {
+		if rankIn(releaseutil.InstallOrder, r.Kind) >= 0 {
+			continue
+		}
+		s := cs[r.Kind+"/"+r.Name]
+		if s == nil || s.recv == 0 || s.done == 0 {
+			continue
+		}
+		g := groups[r.Kind]
+		if g == nil {
+			g = &grp{minRecv: s.recv, maxDone: s.done}
+			groups[r.Kind] = g
+		}
+		if s.recv < g.minRecv {
+			g.minRecv = s.recv
+		}
+		if s.done > g.maxDone {
+			g.maxDone = s.done
+		}
+	}
+	var gk []string
+	for k := range groups {
+		gk = append(gk, k)
+	}
+	sort.Strings(gk)
+	var groupPairs int64
+	for i := 0; i < len(gk); i++ {
+		for j := i + 1; j < len(gk); j++ {
+			a, b := groups[gk[i]], groups[gk[j]]
+			groupPairs++
+			if !(a.maxDone < b.minRecv || b.maxDone < a.minRecv) {
+				local.Add("create-barrier", "creates of two different unknown kinds interleave", "%s [first recv %d, last done %d] vs %s [first recv %d, last done %d] | creates: %s | %s",
+					gk[i], a.minRecv, a.maxDone, gk[j], b.minRecv, b.maxDone, trace("op", "POST"), describe())
+			}
+		}
+	}
 	// ---- deletes
 	ds := spans(log, "un", "DELETE")
 	var dpairs int64
@@ -249,6 +308,7 @@ func installOne(res *core.Result, mu *sync.Mutex, seed int64, idx int, verbose b
 	res.Stat("create_pairs_cross_kind_checked", pairs)
 	res.Stat("create_pairs_overlap_capable", capable)
 	res.Stat("create_pairs_unknown_vs_unknown", barriers)
+	res.Stat("unknown_kind_group_pairs_checked", groupPairs)
 	res.Stat("delete_pairs_cross_kind_checked", dpairs)
 	res.Key("barrier|kinds=%d|resources=%d|unknown-kinds=%d", bc.Kinds, len(bc.Res), bc.Unk)
 	if res.Sample == nil {
